@@ -20,6 +20,9 @@ def build(g, stage, payload="plain", trees=None):
     stage driver raised."""
     scfg = M.mk_scfg(g, payload, trees)
     originals = dict(scfg.graph)
+    if payload == "ast":
+        # remember the identity of every statement object (C05)
+        originals["__tree_ids__"] = {k: [id(n) for n in b.tree] for k, b in scfg.graph.items()}
     try:
         M.apply_stage(scfg, stage)
     except RecursionError as e:
@@ -202,7 +205,9 @@ def oracle_c04(g, scfg, originals, stage):
 
 def oracle_c05(g, scfg, originals, stage):
     flat = M.Flat(scfg)
-    M.check_conservation(g, scfg, originals, flat)
+    originals = dict(originals)
+    snap = originals.pop("__tree_ids__", None)
+    M.check_conservation(g, scfg, originals, flat, snap)
     multi = 0
     for name, ss in g.items():
         if len(ss) == 2:
